@@ -62,6 +62,43 @@ theorem doWrite_access (w : World) (i : Nat) (v : View) (d : List Nat) (a : Acce
       unfold Confined View.address at *
       refine ⟨⟨by omega, by omega, by omega, rfl, rfl, rfl⟩, by intro _ _ _ e; cases e⟩
 
+theorem doReadFail_access (w : World) (i : Nat) (v : View) (n : Int) (a : Access)
+    (h : (doReadFail w i v n).2.access = some a) :
+    Confined w.x w.y v a ∧ ∀ addr x y, a ≠ .free addr x y := by
+  unfold doReadFail at h
+  have hle := readCount_le v n
+  generalize readCount v n = rc at h hle
+  obtain ⟨wn, k⟩ := rc
+  simp only at h hle
+  split at h
+  · simp [fail] at h
+  · split at h
+    · simp at h
+    · simp only [Option.some.injEq] at h
+      subst h
+      have hp := available_pos v (by omega)
+      unfold Confined View.address at *
+      refine ⟨⟨by omega, by omega, by omega, rfl, rfl, rfl⟩, by intro _ _ _ e; cases e⟩
+
+theorem doWriteFail_access (w : World) (i : Nat) (v : View) (d : List Nat) (j : Nat) (a : Access)
+    (h : (doWriteFail w i v d j).2.access = some a) :
+    Confined w.x w.y v a ∧ ∀ addr x y, a ≠ .free addr x y := by
+  unfold doWriteFail at h
+  have hle := writeData_le v d
+  generalize writeData v d = rc at h hle
+  obtain ⟨wn, d'⟩ := rc
+  simp only at h hle
+  split at h
+  · simp [fail] at h
+  · split at h
+    · simp at h
+    · simp only [Option.some.injEq] at h
+      subst h
+      have hpos : 0 < d'.length := by omega
+      have hp := available_pos v (by omega)
+      unfold Confined View.address at *
+      refine ⟨⟨by omega, by omega, by omega, rfl, rfl, rfl⟩, by intro _ _ _ e; cases e⟩
+
 /-- how one call changes the list of views -/
 inductive ViewsStep (w : World) (op : Op) (w' : World) : Prop where
   | same (h : w'.views = w.views)
@@ -96,6 +133,20 @@ theorem step_views (w : World) (op : Op) : ViewsStep w op (step w op).1 := by
       · split
         · exact .same rfl
         · exact .upd v { v with offset := v.offset + k.length } hv rfl rfl (fun h => h) rfl
+    | readFail i n =>
+      simp only [stepView, doReadFail, fail]
+      generalize readCount v n = rc
+      obtain ⟨wn, k⟩ := rc
+      simp only
+      repeat' split
+      all_goals exact .same rfl
+    | writeFail i d j =>
+      simp only [stepView, doWriteFail, fail]
+      generalize writeData v d = rc
+      obtain ⟨wn, k⟩ := rc
+      simp only
+      repeat' split
+      all_goals exact .same rfl
     | seek i n wh =>
       simp only [stepView, doSeek, fail, done]
       repeat' split
@@ -141,6 +192,20 @@ theorem step_xy (w : World) (op : Op) : (step w op).1.x = w.x ∧ (step w op).1.
       simp only
       repeat' split
       all_goals exact ⟨rfl, rfl⟩
+    | readFail i n =>
+      simp only [stepView, doReadFail, fail]
+      generalize readCount v n = rc
+      obtain ⟨wn, k⟩ := rc
+      simp only
+      repeat' split
+      all_goals exact ⟨rfl, rfl⟩
+    | writeFail i d j =>
+      simp only [stepView, doWriteFail, fail]
+      generalize writeData v d = rc
+      obtain ⟨wn, k⟩ := rc
+      simp only
+      repeat' split
+      all_goals exact ⟨rfl, rfl⟩
     | seek i n wh =>
       simp only [stepView, doSeek, fail, done]
       repeat' split
@@ -172,6 +237,8 @@ theorem step_freed (w : World) (op : Op) (h : w.freed = true) : (step w op).1.fr
     cases op with
     | read i n => simp [stepView, doRead, fail, hd, h]
     | write i d => simp [stepView, doWrite, fail, hd, h]
+    | readFail i n => simp [stepView, doReadFail, fail, hd, h]
+    | writeFail i d j => simp [stepView, doWriteFail, fail, hd, h]
     | seek i n wh => simp [stepView, doSeek, fail, hd, h]
     | slice i a b s =>
       simp only [stepView, doSlice, doSliceOrig, fail]
@@ -324,7 +391,7 @@ theorem read_refines (w : World) (i : Nat) (v : View) (n : Int) (hv : w.views[i]
     (hlive : dead w v = false) (hwf : v.start ≤ v.stop) :
     ∃ s, specIO v (absFile w.mem v) (.read i n) = some s ∧ Refines w i v s (doRead w i v n) := by
   obtain ⟨hr, hrp⟩ := room_facts w.mem v hwf
-  simp only [specIO, File.read]
+  simp only [specIO, specRead, File.read]
   refine ⟨_, rfl, ?_⟩
   unfold doRead
   rw [readCount_spec v n _ hr]
@@ -367,7 +434,7 @@ theorem write_refines (w : World) (i : Nat) (v : View) (d : List Nat) (hv : w.vi
     (hlive : dead w v = false) (hwf : v.start ≤ v.stop) :
     ∃ s, specIO v (absFile w.mem v) (.write i d) = some s ∧ Refines w i v s (doWrite w i v d) := by
   obtain ⟨hr, hrp⟩ := room_facts w.mem v hwf
-  simp only [specIO, File.write]
+  simp only [specIO, specWrite, File.write]
   refine ⟨_, rfl, ?_⟩
   unfold doWrite
   rw [writeData_spec v d _ hr]
@@ -473,7 +540,7 @@ theorem step_dead (w : World) (op : Op) (v : View) (hv : w.views[op.target]? = s
     step w op = (w, ⟨.err .osError, false, none⟩) := by
   unfold step
   rw [hv]
-  cases op <;> simp_all [stepView, doRead, doWrite, doSeek, doSlice, fail, Op.isIO, Op.mustFail]
+  cases op <;> simp_all [stepView, doRead, doWrite, doReadFail, doWriteFail, doSeek, doSlice, fail, Op.isIO, Op.mustFail]
 
 theorem step_freed_noaccess (w : World) (op : Op) (h : w.freed = true) : (step w op).2.access = none := by
   unfold step
@@ -491,7 +558,7 @@ theorem step_freed_noaccess (w : World) (op : Op) (h : w.freed = true) : (step w
       simp only [stepView, doFree, fail, h]
       repeat' split
       all_goals first | rfl | simp_all
-    | _ => simp [stepView, doRead, doWrite, doSeek, fail, done, hd]
+    | _ => simp [stepView, doRead, doWrite, doReadFail, doWriteFail, doSeek, fail, done, hd]
 
 theorem step_confined_lem (w : World) (op : Op) (a : Access) (h : (step w op).2.access = some a) :
     ∃ v, w.views[op.target]? = some v ∧ Confined w.x w.y v a ∧
@@ -507,6 +574,12 @@ theorem step_confined_lem (w : World) (op : Op) (a : Access) (h : (step w op).2.
       exact ⟨this.1, fun ad x y e => absurd e (this.2 ad x y)⟩
     | write i d =>
       have := doWrite_access w i v d a h
+      exact ⟨this.1, fun ad x y e => absurd e (this.2 ad x y)⟩
+    | readFail i n =>
+      have := doReadFail_access w i v n a h
+      exact ⟨this.1, fun ad x y e => absurd e (this.2 ad x y)⟩
+    | writeFail i d j =>
+      have := doWriteFail_access w i v d j a h
       exact ⟨this.1, fun ad x y e => absurd e (this.2 ad x y)⟩
     | free i =>
       simp only [stepView, doFree] at h
@@ -590,11 +663,81 @@ theorem slice_bounds_exact (v : View) (h : v.start ≤ v.stop) (a b : Option Int
   unfold sliceBounds specSlice sliceRange pyIndices mkView View.len
   cases a <;> cases b <;> simp only <;> (repeat' split) <;> simp only [View.mk.injEq, and_true, true_and] <;> omega
 
+theorem readFail_refines (w : World) (i : Nat) (v : View) (n : Int) (hv : w.views[i]? = some v)
+    (hlive : dead w v = false) (hwf : v.start ≤ v.stop) :
+    ∃ s, specIO v (absFile w.mem v) (.readFail i n) = some s ∧ Refines w i v s (doReadFail w i v n) := by
+  obtain ⟨hr, hrp⟩ := room_facts w.mem v hwf
+  simp only [specIO, specRead, File.read, File.readFail]
+  unfold doReadFail
+  rw [readCount_spec v n _ hr]
+  simp only [hlive, Bool.false_eq_true, if_false]
+  have hpos : (absFile w.mem v).pos = v.offset := rfl
+  obtain ⟨k, hk⟩ : ∃ k, min (if n < 0 then (absFile w.mem v).room else n.toNat) (absFile w.mem v).room = k :=
+    ⟨_, rfl⟩
+  simp only [hk]
+  by_cases hz : k = 0
+  · subst hz
+    simp only [if_true, Int.natCast_zero, Int.le_refl, Int.add_zero, List.take_zero]
+    refine ⟨_, rfl, ?_, ?_, rfl, fun _ _ => rfl, rfl, rfl, rfl⟩
+    · simp [specAccess]
+    · simp only [hpos]; exact (set_self _ _ _ hv).symm
+  · have hk0 : ¬ ((k : Int) ≤ 0) := by omega
+    simp only [hz, hk0, if_false]
+    refine ⟨_, rfl, ?_, (set_self _ _ _ hv).symm, rfl, fun _ _ => rfl, rfl, rfl, rfl⟩
+    simp only [specAccess, hz, if_false, Int.toNat_natCast, View.address]
+    simp [Int.add_comm]
+
+theorem writeFail_refines (w : World) (i : Nat) (v : View) (d : List Nat) (j : Nat)
+    (hv : w.views[i]? = some v) (hlive : dead w v = false) (hwf : v.start ≤ v.stop) :
+    ∃ s, specIO v (absFile w.mem v) (.writeFail i d j) = some s ∧
+      Refines w i v s (doWriteFail w i v d j) := by
+  obtain ⟨hr, hrp⟩ := room_facts w.mem v hwf
+  simp only [specIO, specWrite, File.write, File.writeFail]
+  unfold doWriteFail
+  rw [writeData_spec v d _ hr]
+  simp only [hlive, Bool.false_eq_true, if_false]
+  have hpos : (absFile w.mem v).pos = v.offset := rfl
+  have hdata : (absFile w.mem v).data = readMem w.mem v.start v.len.toNat := rfl
+  obtain ⟨k, hk⟩ : ∃ k, min d.length (absFile w.mem v).room = k := ⟨_, rfl⟩
+  simp only [hk]
+  have hkr : k ≤ (absFile w.mem v).room := by omega
+  have hkd : k ≤ d.length := by omega
+  have hlen : (d.take k).length = k := by simp; omega
+  by_cases hz : k = 0
+  · subst hz
+    simp only [List.take_zero, List.length_nil, if_true, Int.natCast_zero, Int.add_zero,
+      List.append_nil, Nat.add_zero, List.take_append_drop]
+    refine ⟨_, rfl, ?_, ?_, rfl, fun _ _ => rfl, rfl, rfl, rfl⟩
+    · simp [specAccess]
+    · simp only [hpos]; exact (set_self _ _ _ hv).symm
+  · have hp := hrp (by omega)
+    have hk0 : ¬ ((d.take k).length = 0) := by omega
+    simp only [hk0, hz, if_false, hpos, hdata]
+    have haddr : v.address = v.start + (v.offset.toNat : Int) := by unfold View.address; omega
+    have hlj : ((d.take k).take j).length ≤ k := by simp; omega
+    refine ⟨_, rfl, ?_, (set_self _ _ _ hv).symm, ?_, ?_, rfl, rfl, rfl⟩
+    · simp only [specAccess, hz, if_false, if_true, View.address]
+      simp [Int.add_comm]
+    · simp only [absFile, View.len]
+      have := readMem_writeMem w.mem v.start (v.stop - v.start).toNat v.offset.toNat ((d.take k).take j)
+        (by unfold View.len at *; omega)
+      rw [haddr]; exact this
+    · intro a ha
+      apply writeMem_outside
+      unfold View.address View.len at *
+      omega
+
 theorem specIO_post (v : View) (f : File) (op : Op) (s : SpecOut) (h : specIO v f op = some s) :
     s.post.start = v.start ∧ s.post.stop = v.stop ∧ s.post.closed = v.closed := by
   cases op with
-  | read i n => simp only [specIO, Option.some.injEq] at h; subst h; exact ⟨rfl, rfl, rfl⟩
-  | write i d => simp only [specIO, Option.some.injEq] at h; subst h; exact ⟨rfl, rfl, rfl⟩
+  | read i n => simp only [specIO, specRead, Option.some.injEq] at h; subst h; exact ⟨rfl, rfl, rfl⟩
+  | write i d => simp only [specIO, specWrite, Option.some.injEq] at h; subst h; exact ⟨rfl, rfl, rfl⟩
+  | readFail i n =>
+    simp only [specIO, specRead] at h
+    split at h <;> (simp only [Option.some.injEq] at h; subst h; exact ⟨rfl, rfl, rfl⟩)
+  | writeFail i d j =>
+    simp only [specIO, specWrite] at h
+    split at h <;> (simp only [Option.some.injEq] at h; subst h; exact ⟨rfl, rfl, rfl⟩)
   | seek i n wh =>
     simp only [specIO] at h
     split at h <;> (simp only [Option.some.injEq] at h; subst h; exact ⟨rfl, rfl, rfl⟩)
